@@ -333,13 +333,13 @@ func schedScenarios(thorough bool) []schedScenario {
 		n string
 		r uint32
 	}{{"low", 5}, {"wrap-3", 0xFFFFFFFD}, {"wrap-2", 0xFFFFFFFE}, {"wrap-1", 0xFFFFFFFF}} {
-		add("2-threads/RR|RR/"+preset.n, preset.r, 7, []sealOp{R, R}, []sealOp{R, R})
-		add("2-threads/RP|PR/"+preset.n, preset.r, 7, []sealOp{R, P}, []sealOp{P, R})
-		add("3-threads/R|R|P/"+preset.n, preset.r, 7, []sealOp{R}, []sealOp{R}, []sealOp{P})
-		add("2-threads/LL|LL/"+preset.n, preset.r, 7, []sealOp{L, L}, []sealOp{L, L})
+		add("2-threads/RR|RR/"+preset.n, preset.r, 300, []sealOp{R, R}, []sealOp{R, R})
+		add("2-threads/RP|PR/"+preset.n, preset.r, 300, []sealOp{R, P}, []sealOp{P, R})
+		add("3-threads/R|R|P/"+preset.n, preset.r, 300, []sealOp{R}, []sealOp{R}, []sealOp{P})
+		add("2-threads/LL|LL/"+preset.n, preset.r, 300, []sealOp{L, L}, []sealOp{L, L})
 		if thorough {
-			add("3-threads/RR|RP|PR/"+preset.n, preset.r, 7, []sealOp{R, R}, []sealOp{R, P}, []sealOp{P, R})
-			add("3-threads/L|L|L/"+preset.n, preset.r, 7, []sealOp{L}, []sealOp{L}, []sealOp{L})
+			add("3-threads/RR|RP|PR/"+preset.n, preset.r, 300, []sealOp{R, R}, []sealOp{R, P}, []sealOp{P, R})
+			add("3-threads/L|L|L/"+preset.n, preset.r, 300, []sealOp{L}, []sealOp{L}, []sealOp{L})
 		}
 	}
 	return out
